@@ -5,7 +5,7 @@ CONSTANTS
   Ops <- OpsShots4
   MaxOps = 4
   Notifs <- NotifsA
-  MaxNotif = 1
+  MaxNotif = 0
   Bug = "none"
   OneQueryPerCmd = FALSE
 INVARIANT TypeOK
